@@ -650,6 +650,9 @@ func (p *parser) parsePrimary() (Expr, error) {
 		return nil, unsupportedf("dollar-quoted string in expression")
 	case TPunct:
 		if t.Text != "(" {
+			if strings.Contains("@?&|~^#!", t.Text) {
+				return nil, unsupportedf("prefix operator %q at offset %d", t.Text, t.Pos)
+			}
 			return nil, p.errNear(t)
 		}
 		p.next()
